@@ -1234,6 +1234,16 @@ def pixel_layers(ctx):
     add(3857, {'srs': 'EPSG:3857', 'bbox': [0, 0, 1000, 1000], 'res': [4, 1], 'tile_size': [100, 100], 'origin': 'll'}, [3, 3], 0)
     add(3035, {'srs': 'EPSG:3035', 'bbox': [4000000, 2700000, 4700000, 3600000], 'res': [2000, 1000, 500], 'tile_size': [64, 64],
                'origin': 'nw'}, [2, 3], 7)
+    # levels with more than 1,000,000 columns and rows (every directory component of the cache layouts is exercised): addresses
+    # whose column / row differ by a multiple of 1,000,000 (and a 2**20 neighbour), requested in a fixed order - the first one is
+    # stored before the others are asked for, so a tile that is found under the path of another tile shows the wrong ground.
+    # Tile sizes whose multiple of 1,000,000 is not a multiple of 2048 (the position code carries 11 bits per axis).
+    add(3857, {'srs': 'EPSG:3857', 'bbox': [0, 0, 20 * 2000010, 30 * 2000010], 'res': [1], 'tile_size': [20, 30], 'origin': 'll'}, [2, 2], 5)
+    out[-1][0].force_points = {0: [(5, 7), (1000005, 7), (2000005, 7), (1048575, 7), (5, 1000007), (5, 2000007), (1000005, 1000007),
+                                   (6, 1048575)]}
+    add(25832, {'srs': 'EPSG:25832', 'bbox': [0, 0, 2 * 50 * 1100000, 2 * 50 * 1050000], 'res': [8, 2], 'tile_size': [50, 50], 'origin': 'ul'},
+        [3, 2], 0)
+    out[-1][0].force_points = {1: [(1000003, 9), (3, 9), (3, 1000009), (1000003, 1000009), (1000002, 1000010)]}
     for _ in range(ctx.n(3, 14)):
         tw, th = rng.choice([(32, 32), (64, 32), (50, 50), (128, 128), (20, 30)])
         n = rng.randrange(1, 4)
@@ -1309,10 +1319,17 @@ def do_pixels(ctx):
                 r = gc.res[l]
                 nx, ny = gc.grid_size(l)
                 top = 0 if gc.ul else ny - 1
-                pts = {(x, top) for x in rng.sample(range(nx), min(nx, 3))}
-                pts |= {(x, ny - 1 - top) for x in rng.sample(range(nx), min(nx, 2))}
-                pts |= {(rng.randrange(nx), rng.randrange(ny)) for _ in range(2)}
-                for x, y in sorted(pts):
+                forced = getattr(spec, 'force_points', None)
+                if forced is not None:
+                    # fixed addresses in a fixed order (history: earlier ones are stored when the later ones are requested);
+                    # independent of the seed
+                    pts = [p for p in forced.get(l, []) if p[0] < nx and p[1] < ny]
+                else:
+                    pts = {(x, top) for x in rng.sample(range(nx), min(nx, 3))}
+                    pts |= {(x, ny - 1 - top) for x in rng.sample(range(nx), min(nx, 2))}
+                    pts |= {(rng.randrange(nx), rng.randrange(ny)) for _ in range(2)}
+                    pts = sorted(pts)
+                for x, y in pts:
                     rect = gc.tile_rect(x, y, l)
                     addrs = [('tiles', '/tiles/%s/%d/%d/%d.png' % (rel, l, x, y), rect)]
                     ysw = ny - 1 - y if gc.ul else y
